@@ -187,6 +187,12 @@ class AppCfgMgr:
                             instance_name)
             return
 
+        elif self._is_configured(event_file):
+            # Stale event: the container of this very cache entry was already
+            # created (and may have finished and be in cleanup by now).
+            _LOGGER.warning('Event on already configured %r', instance_name)
+            return
+
         elif self._configure(instance_name):
             self._refresh_supervisor()
 
@@ -212,6 +218,12 @@ class AppCfgMgr:
         elif self._is_active is False:
             # Ignore all deleted events while we are not running
             _LOGGER.debug('Inactive in deleted event handler.')
+            return
+
+        elif self._is_running(event_file):
+            # Stale event: the entry was created again since and the running
+            # container already is the one of the current cache entry.
+            _LOGGER.warning('Stale delete event on %r', instance_name)
             return
 
         else:
@@ -414,6 +426,41 @@ class AppCfgMgr:
             supervisor.SvscanControlAction.alarm,
             supervisor.SvscanControlAction.nuke
         ))
+
+    def _is_configured(self, event_file):
+        """Check if the container of the cache entry already exists.
+        """
+        try:
+            container = appcfg.eventfile_unique_name(event_file)
+        except OSError:
+            # No (more) cache entry.
+            return False
+
+        return os.path.isdir(os.path.join(self.tm_env.apps_dir, container))
+
+    def _is_running(self, event_file):
+        """Check if the container of the cache entry is the running one.
+        """
+        try:
+            container = appcfg.eventfile_unique_name(event_file)
+        except OSError:
+            # No (more) cache entry.
+            return False
+
+        return container == self._linked_container(
+            self.tm_env.running_dir, os.path.basename(event_file)
+        )
+
+    @staticmethod
+    def _linked_container(link_dir, link_name):
+        """Name of the container a running/cleanup link points to, if any.
+        """
+        try:
+            return os.path.basename(
+                os.readlink(os.path.join(link_dir, link_name))
+            )
+        except OSError:
+            return None
 
     @staticmethod
     def _resolve_running_link(running_link):
